@@ -17,8 +17,10 @@ hypothesis says otherwise.
 
 (B) `partial s = ok (p, n) ∧ n > 0 → complete (s.take n) = ok p`
 * `partial_prefix_full` is FALSE: `not_partial_prefix_full`, three witness classes.
-* `partial_prefix_noformat` (+ `_number`, `_special`, `partial_prefix_model_noformat`): proved for the build without
-  the `format` feature (release), numbers unconditionally, specials under `SpecialHeadsOK`.
+* `partial_prefix_contiguous` (+ `_number`, `_special`, `partial_prefix_noformat`, `partial_prefix_model`): proved for
+  every release build without a digit-separator byte (no `format` feature, or a `format` build whose format has no
+  separator — base prefix/suffix and all syntax flags allowed) when mantissa digits are required; numbers
+  unconditionally, specials under `SpecialHeadsOK`.
 -/
 namespace LexVerif.Props.C11
 open LexVerif LexVerif.Model LexVerif.Spec
@@ -306,20 +308,22 @@ theorem not_partial_prefix_full : ¬ partial_prefix_full := by
     witness_B_radix24_syntax.2] at this
   cases this
 
-/-! ## (B) proved part: truncation of the phases of `parse_number` (no `format` feature, release build)
+/-! ## (B) proved part 1: truncation of the phases of `parse_number`
 
+Setting: release build, no digit-separator byte (`Rel c`, `c.bytesContiguous`): the build without the `format`
+feature and every `format` build whose format has no separator (base prefix/suffix, all syntax flags allowed).
 `trunc n b` cuts the buffer after `n` bytes. Each phase that returns with its cursor at `i ≤ n` returns the same
 result on the truncated buffer (bytes at positions `≥ i` are inspected only to decide to stop). -/
 
-/-- integer, fraction and exponent phase commute with truncation at or beyond their final cursor; the cursor only
-moves forward and stays inside the buffer. (The digit loops `parse_digits`, `try_parse_8digits`, `parse_8digits` and
-`parse_sign!` are `parseDigits_trunc`, `tryParse8_trunc`, `parse8Digits_trunc`, `parseSign_trunc` in
-`Proof/ParseNumberC11Trunc.lean`.) -/
-theorem partial_prefix_phases_partial (c : Cfg) (o : POpts) (hf : c.feats.format = false) (hd : c.debug = false)
+/-- integer (with base prefix), fraction and exponent phase commute with truncation at or beyond their final cursor;
+the cursor only moves forward and stays inside the buffer. (The digit loops, `parse_sign!`, prefix and suffix are
+`parseDigits_trunc`, `tryParse8_trunc`, `parse8Digits_trunc`, `parseSign_trunc`, `prefixPhase_trunc`,
+`suffixPhase_trunc` in `Proof/ParseNumberC11Trunc.lean`.) -/
+theorem partial_prefix_phases (c : Cfg) (o : POpts) (hc : Proof.PNTotal.Rel c) (hb : c.bytesContiguous = true)
     (b : Bytes) (hv : C12.Bytes.Valid b) :
     (∀ ip, integerPhase c b = .ok ip →
       b.index ≤ ip.byte.index ∧ ip.byte.index ≤ b.slc.length ∧
-      ∀ n, ip.byte.index ≤ n → integerPhase c (trunc n b) = .ok { ip with start := trunc n b, byte := trunc n ip.byte }) ∧
+      ∀ n, ip.byte.index ≤ n → integerPhase c (trunc n b) = .ok { ip with start := trunc n ip.start, byte := trunc n ip.byte }) ∧
     (∀ m fp, fractionPhase c o b m = .ok fp →
       b.index ≤ fp.byte.index ∧ fp.byte.index ≤ b.slc.length ∧
       ∀ n, fp.byte.index ≤ n → fractionPhase c o (trunc n b) m = .ok { fp with byte := trunc n fp.byte }) ∧
@@ -328,20 +332,17 @@ theorem partial_prefix_phases_partial (c : Cfg) (o : POpts) (hf : c.feats.format
       ∀ n, ep.byte.index ≤ n → exponentPhase c true (trunc n b) fr ex = .ok { ep with byte := trunc n ep.byte }) := by
   refine ⟨?_, ?_, ?_⟩
   · intro ip h
-    obtain ⟨_, e2, e3, e4, _, _, e7⟩ := integerPhase_trunc hf hd b ip hv h
-    have hs : ip.byte.slc = b.slc := by rw [e2]; rfl
-    exact ⟨e3, by have : ip.byte.index ≤ ip.byte.slc.length := e4
-                  rw [hs] at this; exact this, e7⟩
+    obtain ⟨_, e2, _, e4, e5, e6, _, _, e9⟩ := integerPhase_trunc hc hb b ip hv h
+    exact ⟨by omega, by have : ip.byte.index ≤ ip.byte.slc.length := e6
+                        rw [e4] at this; exact this, e9⟩
   · intro m fp h
-    obtain ⟨e1, e2, e3, _, _, _, e5⟩ := fractionPhase_trunc hf hd o b m fp hv h
-    have hs : fp.byte.slc = b.slc := by rw [e1]; rfl
+    obtain ⟨e1, e2, e3, _, _, _, e5⟩ := fractionPhase_trunc hc hb o b m fp hv h
     exact ⟨e2, by have : fp.byte.index ≤ fp.byte.slc.length := e3
-                  rw [hs] at this; exact this, e5⟩
+                  rw [e1] at this; exact this, e5⟩
   · intro fr ex ep hlt h
-    obtain ⟨e1, _, e3, e4, e5⟩ := exponentPhase_trunc hf hd true b fr ex ep hv (fun _ => hlt) h
-    have hs : ep.byte.slc = b.slc := by rw [e1]; rfl
+    obtain ⟨e1, _, e3, e4, e5⟩ := exponentPhase_trunc hc hb true b fr ex ep hv (fun _ => hlt) h
     exact ⟨e4 rfl, by have : ep.byte.index ≤ ep.byte.slc.length := e3
-                      rw [hs] at this; exact this, e5⟩
+                      rw [e1] at this; exact this, e5⟩
 
 /-- non-vacuity: "12.5e3x" — the three phases succeed -/
 example : (∃ ip, integerPhase ⟨{}, Format.standard, false⟩ (Bytes.new [49, 50, 46, 53, 101, 51, 120]) = .ok ip ∧
@@ -458,50 +459,80 @@ theorem specialHeadsOK_of_valid (c : Cfg) (o : POpts) (hopt : optionsError o = n
             · rw [if_pos hc] at hinfy; cases hinfy
             · exact hhead str 73 105 (Or.inl ⟨rfl, rfl⟩) (by simpa using hc)
 
-/-! ## (B) proved: the no-`format` release build -/
+/-! ## (B) proved part 2: `partial_prefix` without a digit-separator byte (release build) -/
 
 /-- `parse_number` returns the same number and count on every truncation of the buffer at or beyond its count; the
-count is inside the buffer and at least one byte was consumed (includes the many-digits re-parse) -/
-theorem parseNumber_prefix_noformat (c : Cfg) (p : Bool) (o : POpts) (b : Bytes) (neg fv : Bool) (r : Number)
-    (count : Nat) (hf : c.feats.format = false) (hd : c.debug = false) (hr : 1 ≤ c.mantissaRadix)
-    (hv : C12.Bytes.Valid b) (h : parseNumber c p o b neg fv = .ok (r, count)) :
+count is inside the buffer and at least one byte was consumed (includes base prefix/suffix and the many-digits
+re-parse) -/
+theorem parseNumber_prefix (c : Cfg) (p : Bool) (o : POpts) (b : Bytes) (neg fv : Bool) (r : Number)
+    (count : Nat) (hc : Proof.PNTotal.Rel c) (hb : c.bytesContiguous = true) (hr : 1 ≤ c.mantissaRadix)
+    (hm : c.requiredMantissaDigits = true) (hv : C12.Bytes.Valid b) (h : parseNumber c p o b neg fv = .ok (r, count)) :
     b.index < count ∧ count ≤ b.slc.length ∧
     ∀ n, count ≤ n → parseNumber c p o (trunc n b) neg fv = .ok (r, count) :=
-  parseNumber_trunc hf hd p o b neg fv r count hr hv h
+  parseNumber_trunc hc hb p o b neg fv r count hr hm hv h
 
-/-- `partial_prefix`, number results: every input, every options, no further hypothesis -/
-theorem partial_prefix_noformat_number (c : Cfg) (o : POpts) (s : List Nat) (x : Number) (cnt : Nat)
-    (hf : c.feats.format = false) (hd : c.debug = false) (hr : 1 ≤ c.mantissaRadix)
+/-- **C11 (B), no digit-separator byte** (release build; with or without the `format` feature; base prefix/suffix and
+every syntax flag allowed; mantissa digits required): `partial s = ok p → complete (s.take (count p)) = ok p`.
+Numbers need no hypothesis on the options; specials need `SpecialHeadsOK`. -/
+theorem partial_prefix_contiguous (c : Cfg) (o : POpts) (s : List Nat) (p : Parsed)
+    (hc : Proof.PNTotal.Rel c) (hb : c.bytesContiguous = true) (hr : 1 ≤ c.mantissaRadix)
+    (hm : c.requiredMantissaDigits = true)
+    (hrad : c.feats.powerOfTwo = false → c.mantissaRadix ≤ 10) (hh : SpecialHeadsOK c o)
+    (h : parseFloatSyntax c o true s = .ok p) :
+    parseFloatSyntax c o false (s.take (pcount p)) = .ok p :=
+  partial_prefix_g hc hb o s true p hr hm hrad hh h
+
+/-- number results: every input, every options -/
+theorem partial_prefix_contiguous_number (c : Cfg) (o : POpts) (s : List Nat) (x : Number) (cnt : Nat)
+    (hc : Proof.PNTotal.Rel c) (hb : c.bytesContiguous = true) (hr : 1 ≤ c.mantissaRadix)
+    (hm : c.requiredMantissaDigits = true)
     (h : parseFloatSyntax c o true s = .ok (.number x cnt)) :
     parseFloatSyntax c o false (s.take cnt) = .ok (.number x cnt) :=
-  partial_prefix_number_nf hf hd o s true x cnt hr h
+  partial_prefix_number_g hc hb o s true x cnt hr hm h
 
-example : parseFloatSyntax ⟨{}, Format.standard, false⟩ {} true [49, 46, 53, 120]
-    = .ok (.number ⟨15, -1, false, false, [49], some [53], 0⟩ 3) := by decide
-
-/-- `partial_prefix`, special results: under `SpecialHeadsOK` (class (iii), `witness_B_radix24_nan`, shows that a
-hypothesis of this kind is necessary) -/
-theorem partial_prefix_noformat_special (c : Cfg) (o : POpts) (s : List Nat) (sp : Special) (neg : Bool) (cnt : Nat)
-    (hf : c.feats.format = false) (hd : c.debug = false) (hr : 1 ≤ c.mantissaRadix)
+/-- special results: under `SpecialHeadsOK` (class (iii), `witness_B_radix24_nan`, shows that a hypothesis of this kind
+is necessary) -/
+theorem partial_prefix_contiguous_special (c : Cfg) (o : POpts) (s : List Nat) (sp : Special) (neg : Bool) (cnt : Nat)
+    (hc : Proof.PNTotal.Rel c) (hb : c.bytesContiguous = true) (hr : 1 ≤ c.mantissaRadix)
+    (hm : c.requiredMantissaDigits = true)
     (hrad : c.feats.powerOfTwo = false → c.mantissaRadix ≤ 10) (hh : SpecialHeadsOK c o)
     (h : parseFloatSyntax c o true s = .ok (.special sp neg cnt)) :
     parseFloatSyntax c o false (s.take cnt) = .ok (.special sp neg cnt) :=
-  partial_prefix_special_nf hf hd o s true sp neg cnt hr hrad hh h
+  partial_prefix_special_g hc hb o s true sp neg cnt hr hm hrad hh h
 
-example : parseFloatSyntax ⟨{}, Format.standard, false⟩ {} true [45, 110, 97, 110, 53] = .ok (.special .nan true 4) := by
-  decide
-
-/-- **C11 (B), no-`format` release build**: `partial s = ok p → complete (s.take (count p)) = ok p` -/
+/-- the build without the `format` feature: `Rel`, contiguity and required mantissa digits are automatic -/
 theorem partial_prefix_noformat (c : Cfg) (o : POpts) (s : List Nat) (p : Parsed)
     (hf : c.feats.format = false) (hd : c.debug = false) (hr : 1 ≤ c.mantissaRadix)
     (hrad : c.feats.powerOfTwo = false → c.mantissaRadix ≤ 10) (hh : SpecialHeadsOK c o)
     (h : parseFloatSyntax c o true s = .ok p) :
     parseFloatSyntax c o false (s.take (pcount p)) = .ok p :=
-  partial_prefix_nf hf hd o s true p hr hrad hh h
+  partial_prefix_contiguous c o s p (rel_nf hf hd) (Proof.PNTotal.notFormat_bytesContig hf) hr
+    (by simp [Cfg.requiredMantissaDigits, Cfg.flag, hf]) hrad hh h
+
+theorem partial_prefix_noformat_number (c : Cfg) (o : POpts) (s : List Nat) (x : Number) (cnt : Nat)
+    (hf : c.feats.format = false) (hd : c.debug = false) (hr : 1 ≤ c.mantissaRadix)
+    (h : parseFloatSyntax c o true s = .ok (.number x cnt)) :
+    parseFloatSyntax c o false (s.take cnt) = .ok (.number x cnt) :=
+  partial_prefix_contiguous_number c o s x cnt (rel_nf hf hd) (Proof.PNTotal.notFormat_bytesContig hf) hr
+    (by simp [Cfg.requiredMantissaDigits, Cfg.flag, hf]) h
+
+example : parseFloatSyntax ⟨{}, Format.standard, false⟩ {} true [49, 46, 53, 120]
+    = .ok (.number ⟨15, -1, false, false, [49], some [53], 0⟩ 3) := by decide
+
+example : parseFloatSyntax ⟨{}, Format.standard, false⟩ {} true [45, 110, 97, 110, 53] = .ok (.special .nan true 4) := by
+  decide
 
 /-- non-vacuity of the hypotheses: the STANDARD format with default options -/
 example : SpecialHeadsOK ⟨{}, Format.standard, false⟩ {} :=
   specialHeadsOK_of_valid _ _ (by decide) (by decide) (by decide)
+
+/-- non-vacuity with the `format` feature: C hex-float strings with base prefix `x` (`prefix_x_hexfloat`, radix 16,
+exponent `p`): "0x1.8p1z" → count 7 -/
+example : (⟨featsRadixFormat, ⟨0xa02100078000000000000000000000c⟩, false⟩ : Cfg).bytesContiguous = true ∧
+    (⟨featsRadixFormat, ⟨0xa02100078000000000000000000000c⟩, false⟩ : Cfg).requiredMantissaDigits = true ∧
+    parseFloatSyntax ⟨featsRadixFormat, ⟨0xa02100078000000000000000000000c⟩, false⟩ { exp := 112 } true
+      [48, 120, 49, 46, 56, 112, 49, 122] = .ok (.number ⟨24, -3, false, false, [49], some [56], 1⟩ 7) := by
+  decide +kernel
 
 /-! ## (B) at the API level (`parseFloatModel`, the harness line) -/
 
@@ -517,11 +548,13 @@ theorem parseFloatModel_of_valid (feats : Features) (fmt : Format) (o : POpts) (
   simp only [h1, h2, h3, h4, Option.isSome_none, Option.isNone_none, Bool.false_eq_true, if_false, Bool.not_true]
   rfl
 
-/-- C11 (B) for `parse_partial_with_options` / `parse_with_options` (no `format` feature, release build, valid format
-and options, mantissa radix ≤ 18, decimal point not one of `I i N n`): whatever the partial parser returns as
-`(value, count)`, the complete parser returns the same value on the first `count` bytes -/
-theorem partial_prefix_model_noformat (feats : Features) (fmt : Format) (o : POpts) (f : Fmt) (s : List Nat) (q : Parsed)
-    (hf : feats.format = false) (hfeat : feats.radix = true → feats.powerOfTwo = true)
+/-- C11 (B) for `parse_partial_with_options` / `parse_with_options` (release build, valid format and options, no digit
+separator in the format, mantissa digits required, mantissa radix ≤ 18, decimal point not one of `I i N n`): whatever
+the partial parser returns as `(value, count)`, the complete parser returns the same value on the first `count` bytes -/
+theorem partial_prefix_model (feats : Features) (fmt : Format) (o : POpts) (f : Fmt) (s : List Nat) (q : Parsed)
+    (hfeat : feats.radix = true → feats.powerOfTwo = true)
+    (hb : (⟨feats, fmt, false⟩ : Cfg).bytesContiguous = true)
+    (hm : (⟨feats, fmt, false⟩ : Cfg).requiredMantissaDigits = true)
     (h1 : optionsError o = none) (h2 : formatError feats fmt = none)
     (h3 : isValidOptionsPunctuation feats fmt o.exp o.dp = true) (h4 : checkRadix feats fmt = true)
     (hr18 : fmt.mantissaRadix ≤ 18) (hdp : o.dp ≠ 73 ∧ o.dp ≠ 105 ∧ o.dp ≠ 78 ∧ o.dp ≠ 110)
@@ -544,8 +577,9 @@ theorem partial_prefix_model_noformat (feats : Features) (fmt : Format) (o : POp
         exact ⟨by omega, fun hp2 => by rw [hp] at hp2; cases hp2⟩
       · simp only [decide_eq_true_eq] at hvr
         exact ⟨by omega, fun _ => by omega⟩
+  have hrel : Proof.PNTotal.Rel ⟨feats, fmt, false⟩ := Proof.PNTotal.rel_of_valid _ rfl (by simp [h2])
   have hh : SpecialHeadsOK ⟨feats, fmt, false⟩ o := specialHeadsOK_of_valid _ _ h1 hr18 hdp
-  have hc := partial_prefix_noformat ⟨feats, fmt, false⟩ o s q hf rfl hr.1 hr.2 hh h
+  have hc := partial_prefix_contiguous ⟨feats, fmt, false⟩ o s q hrel hb hr.1 hm hr.2 hh h
   rw [parseFloatModel_of_valid feats fmt o true f s false h1 h2 h3 h4,
     parseFloatModel_of_valid feats fmt o false f _ false h1 h2 h3 h4, h, hc]
   exact ⟨rfl, rfl⟩
